@@ -308,7 +308,12 @@ func drawC03Input(t *rapid.T, rec *obs.Recorder) ([]byte, string) {
 func TestC03Inputs(t *testing.T) {
 	rec := obs.NewRecorder("C03", "inputs", "rapid: inputs {random bytes (any length, sync-studded or not); well-formed streams with bit flips, byte substitutions, forced adaptation_field_length values, spliced-out/duplicated runs and truncations; arbitrary and mutated section bodies of every table id wrapped with a correct CRC_32 and valid packet framing (so table and descriptor parsers are reached); PES packets with hostile header bytes} x configurations {packet size auto/188/192/204/189..4096} x {bytes.Reader, bufio.Reader, plain, chunked} x {NextData, NextPacket, alternating} x {no option, skipper, observing/replacing/failing parser}; oracle: no panic, every call consumes input or returns data or ErrNoMorePackets (no spinning; not asserted under bufio), ErrNoMorePackets within len(input)+64 calls and again on 3 further calls; non-trivial = input >= 2 packets and at least one call returned an error and one returned data; distinct by input bytes + configuration")
 	defer rec.Flush()
-	rapid.Check(t, func(t *rapid.T) {
+	rapid.Check(t, c03InputsProp(rec))
+}
+
+// c03InputsProp is the property of the inputs unit; it is also driven by the native fuzzer through rapid.MakeFuzz.
+func c03InputsProp(rec *obs.Recorder) func(t *rapid.T) {
+	return func(t *rapid.T) {
 		input, kind := drawC03Input(t, rec)
 		c := drawC03Cfg(t)
 		v, sawErr, sawData := c03Drive(input, c)
@@ -328,7 +333,12 @@ func TestC03Inputs(t *testing.T) {
 		rec.Case(h.Sum(), len(input) >= 376 && sawErr && sawData, func() interface{} {
 			return map[string]interface{}{"input_kind": kind, "input_len": len(input), "input_head": hexHead(input, 48), "configuration": c.String()}
 		})
-	})
+	}
+}
+
+// FuzzC03Structured lets the coverage-guided fuzzer drive the structured generators of the inputs unit.
+func FuzzC03Structured(f *testing.F) {
+	f.Fuzz(rapid.MakeFuzz(c03InputsProp(obs.NewRecorder("C03", "fuzz_structured", ""))))
 }
 
 // TestC03Truncation: a stream cut at any offset gives the output of its whole packets and no error.
